@@ -524,6 +524,7 @@ static void mi_check_padding(const mi_page_t* page, const mi_block_t* block) {
 static void mi_stat_free(const mi_page_t* page, const mi_block_t* block) {
   MI_UNUSED(block);
   mi_heap_t* const heap = mi_heap_get_default();
+  if (!mi_heap_is_initialized(heap)) return;  // the thread local heap could not be allocated (out of memory)
   const size_t bsize = mi_page_usable_block_size(page);
   // #if (MI_STAT>1)
   // const size_t usize = mi_page_usable_size_of(page, block);
